@@ -5,19 +5,19 @@
 From Verif Require Import Bytes Codec ObjCache ObjCacheProofs.
 Local Open Scope N_scope.
 
-(* the region in which transparency holds: everything except
-   - TransitionObjectStorageClass (not overridden by the middleware, so nothing is invalidated),
-   - GETs whose reader stays open across other calls (the cache fill completes when the reader is
-     drained, whatever happened to the key in between). *)
+(* the region in which transparency holds: everything except GETs whose reader stays open across
+   other calls (the cache fill completes when the reader is drained, whatever happened to the key in
+   between).  TransitionObjectStorageClass is in scope since /repo c25178c (the middleware now
+   overrides it and invalidates). *)
 Definition C20_in_scope (o : op) : bool :=
   match o with
-  | OTrans _ _ _ => false
   | OGetOpen _ _ _ | OGetFinish _ | OGetAbort _ => false
   | _ => true
   end.
 
 (* PROPERTY (sequential clause), strongest true form: after ANY history of in-scope calls (puts with
-   conditions/tags/metadata/class, appends, copies, deletes, bulk deletes, tagging changes, multipart
+   conditions/tags/metadata/class, appends, copies, deletes, bulk deletes, tagging changes, storage-class
+   transitions, multipart
    create/part/complete/abort, heads and gets, in both the unversioned and the versioned bucket), every
    HeadObject and every GetObject through the middleware — with any If-Match / If-None-Match — returns
    exactly what the inner storage returns at that moment (same object record incl. every attribute,
@@ -42,26 +42,30 @@ Definition C20_transparent_full : Prop := forall ops,
   snd (step s (OGet k im inm)) =
     match inner_get (s_in s) k im inm with GObj o b => RGet o b | GErr e => RStatus e end.
 
-Definition w_transition : list op :=
-  [OPut (0, 0) 3 1 1 1 0 PNone; OTrans (0, 0) 2 CNone].
+(* refuted by the open-reader schedule [w_race] below: afterwards GetObject through the middleware
+   returns version 2's record with version 1's body, the inner storage version 2's body *)
+Definition w_race : list op :=
+  [OPut (0, 0) 3 0 0 0 0 PNone; OTag (0, 0) 1; OGetOpen (0, 0) CNone CNone;
+   OPut (0, 0) 4 0 0 0 0 PNone; OGetFinish 0].
 
 Theorem C20_transparent_refuted : ~ C20_transparent_full.
 Proof.
-  intros H. destruct (H w_transition (0, 0) CNone CNone eq_refl) as [Hh _].
-  vm_compute in Hh. discriminate Hh.
+  intros H. destruct (H w_race (0, 0) CNone CNone eq_refl) as [_ Hg].
+  vm_compute in Hg. discriminate Hg.
 Qed.
 Print Assumptions C20_transparent_refuted.
 
-(* finding C20-stale-after-transition: PUT, then a successful transition to class 2 (GLACIER): the inner
-   storage reports class 2, HeadObject and GetObject through the middleware keep reporting class 0 *)
-Theorem C20_stale_after_transition :
+(* regression of the former finding C20-stale-after-transition (fixed by c25178c): PUT, then a
+   successful transition to class 2: inner storage and middleware both report class 2 *)
+Definition w_transition : list op :=
+  [OPut (0, 0) 3 1 1 1 0 PNone; OHead (0, 0) CNone CNone; OTrans (0, 0) 2 CNone].
+Theorem C20_transition_regression :
   let s := fst (run st0 w_transition) in
-  snd (run st0 w_transition) = [RStatus Ok; RStatus Ok] /\
   (exists o, inner_head (s_in s) (0, 0) CNone CNone = RObj o /\ o_cls o = 2) /\
-  (exists o, snd (step s (OHead (0, 0) CNone CNone)) = RHead o /\ o_cls o = 0) /\
-  (exists o b, snd (step s (OGet (0, 0) CNone CNone)) = RGet o b /\ o_cls o = 0).
+  (exists o, snd (step s (OHead (0, 0) CNone CNone)) = RHead o /\ o_cls o = 2) /\
+  (exists o b, snd (step s (OGet (0, 0) CNone CNone)) = RGet o b /\ o_cls o = 2).
 Proof. vm_compute. repeat split; repeat eexists. Qed.
-Print Assumptions C20_stale_after_transition.
+Print Assumptions C20_transition_regression.
 
 (* PROPERTY (concurrent clause): every body returned by GetObject is the body of the object record
    (ETag, size, …) returned with it.  Histories may interleave other calls between the opening of a GET
@@ -72,27 +76,25 @@ Definition C20_body_matches_full : Prop := forall ops i o b,
 (* finding C20-fill-races-put: GET misses and starts filling the cache from version 1 (content 3); a PUT
    of version 2 (content 4) completes; the reader is drained, which stores version 1's body under the
    key; the next GET returns version 2's record (ETag of content 4, size 64) with version 1's body *)
-Definition w_race : list op :=
-  [OPut (0, 0) 3 0 0 0 0 PNone; OTag (0, 0) 1; OGetOpen (0, 0) CNone CNone;
-   OPut (0, 0) 4 0 0 0 0 PNone; OGetFinish 0; OGet (0, 0) CNone CNone].
+Definition w_race_get : list op := w_race ++ [OGet (0, 0) CNone CNone].
 
 Theorem C20_body_matches_refuted : ~ C20_body_matches_full.
 Proof.
   intros H.
-  assert (exists o, nth_error (snd (run st0 w_race)) 5 = Some (RGet o [3]) /\ o_parts o = [4]) as (o & E & P).
+  assert (exists o, nth_error (snd (run st0 w_race_get)) 5 = Some (RGet o [3]) /\ o_parts o = [4]) as (o & E & P).
   { vm_compute. eexists. split; reflexivity. }
-  specialize (H w_race 5%nat o [3] E). rewrite P in H. vm_compute in H. discriminate H.
+  specialize (H w_race_get 5%nat o [3] E). rewrite P in H. vm_compute in H. discriminate H.
 Qed.
 Print Assumptions C20_body_matches_refuted.
 
 Theorem C20_fill_race_witness :
-  exists o, nth_error (snd (run st0 w_race)) 5 = Some (RGet o [3]) /\
+  exists o, nth_error (snd (run st0 w_race_get)) 5 = Some (RGet o [3]) /\
             o_etag o = ES 4 /\ size_of o = 64 /\ body_of (o_parts o) = [4].
 Proof. vm_compute. eexists. repeat split. Qed.
 Print Assumptions C20_fill_race_witness.
 
 (* strongest true form: in every history whose GETs are drained before the next call starts (any mix
-   of all other calls, INCLUDING transitions), every returned body is the body of the
+   of all other calls), every returned body is the body of the
    record returned with it *)
 Definition C20_no_open_readers (o : op) : bool :=
   match o with OGetOpen _ _ _ | OGetFinish _ | OGetAbort _ => false | _ => true end.
@@ -110,11 +112,11 @@ Print Assumptions C20_body_matches_partial.
 (* non-vacuity: an in-scope history that exercises hits, misses, invalidation, both buckets *)
 Definition ex_hist : list op :=
   [OPut (0, 0) 3 1 1 1 2 PNone; OPut (0, 2) 0 0 0 0 0 PNone; OGet (0, 2) CNone CNone; OHead (0, 0) CNone CNone; OGet (0, 0) (CTag (ES 3)) CNone;
-   OAppend (0, 0) 4 None; OGet (0, 0) CNone CNone; OCopy (0, 0) (1, 1) false 0 0 true 2 3;
+   OAppend (0, 0) 4 None; OGet (0, 0) CNone CNone; OTrans (0, 0) 3 CNone; OHead (0, 0) CNone CNone; OCopy (0, 0) (1, 1) false 0 0 true 2 3;
    OGet (1, 1) CNone CNone; ODelete (1, 1) CNone; OHead (1, 1) CNone CNone].
 Example C20_ex_in_scope : forallb C20_in_scope ex_hist = true.
 Proof. reflexivity. Qed.
 Example C20_ex_results :
   map show_res (snd (run st0 ex_hist)) =
-  [B"ok"; B"ok"; B"ok=0:0:0:0:s:-"; B"ok=1:1:1:2:s"; B"ok=1:1:1:2:s:3"; B"ok"; B"ok=1:1:1:2:m2:3.4"; B"ok"; B"ok=1:1:2:3:m2:3.4"; B"ok"; B"DeleteMarker"].
+  [B"ok"; B"ok"; B"ok=0:0:0:0:s:-"; B"ok=1:1:1:2:s"; B"ok=1:1:1:2:s:3"; B"ok"; B"ok=1:1:1:2:m2:3.4"; B"ok"; B"ok=1:1:1:3:m2"; B"ok"; B"ok=1:1:2:3:m2:3.4"; B"ok"; B"DeleteMarker"].
 Proof. vm_compute. reflexivity. Qed.
